@@ -448,7 +448,7 @@ def _c03_job(job) -> dict:
                     continue
                 seen_err.add((et, m.get("error")))
                 cause = attribute_failure(schema, [], import_failure_predicate([], et, False))
-                res["fails"].append(("import-error:%s:%s" % (et, cause),
+                res["fails"].append((("import-error:builtin-name-shadowed" if cause == "builtin-type-names" else "import-error:%s:%s" % (et, cause)),
                                      "import %s -> %s (vanishes when ablating: %s)" % (mn, m.get("error"), cause)))
         res["fails"] += compare_dump_with_truth(truth, dumps)
         res["info"]["classes"] = sum(len(m.get("messages", {})) + len(m.get("enums", {})) for m in dumps.values())
@@ -840,14 +840,22 @@ def _c18_job(job) -> dict:
                 broken.add(n)
                 imp.setdefault((m.get("error_type", "Error"), re.sub(r"line \d+", "line N", m.get("error", ""))[:160]), []).append(n)
     by_type: Dict[Tuple[str, str], Tuple[List[str], str]] = {}
+    all_broken = set(ok_names) <= broken
     for (et, msg), ns in imp.items():
-        lab = config_label(sorted(set(ns)), names)
+        lab = "all-configs" if all_broken else config_label(sorted(set(ns)), names)
         by_type.setdefault((et, lab), (sorted(set(ns)), msg))
+    seen_cause = set()
     for (et, lab), (ns, msg) in by_type.items():
         opts = dict(active)[ns[0]]
         cause = attribute_failure(schema, opts, import_failure_predicate(opts, et, False))
-        res["fails"].append(("import-error:%s:%s:%s" % (et, lab, cause),
-                             "generated package fails to import under %s: %s (vanishes when ablating: %s)" % (ns, msg, cause)))
+        if cause == "builtin-type-names":
+            key = "import-error:builtin-name-shadowed:%s" % lab
+        else:
+            key = "import-error:%s:%s:%s" % (et, lab, cause)
+        if key in seen_cause:
+            continue
+        seen_cause.add(key)
+        res["fails"].append((key, "generated package fails to import under %s: %s (vanishes when ablating: %s)" % (ns, msg, cause)))
     if base_name not in ok_names or base_name in broken:
         return res
     base = per[base_name]
@@ -862,7 +870,11 @@ def _c18_job(job) -> dict:
                 continue  # that is C03's business
             sm.setdefault(m, ([], detail))[0].append(n)
     for m, (ns, detail) in sm.items():
-        res["fails"].append(("schema-mismatch:%s:%s" % (m, config_label(sorted(set(ns)), ok_names)), detail))
+        lab = config_label(sorted(set(ns)), ok_names)
+        if "Field(name=" in detail:
+            res["fails"].append(("builtin-name-shadowed:%s" % lab, detail))
+        else:
+            res["fails"].append(("schema-mismatch:%s:%s" % (m, lab), detail))
     # metadata identical to the default configuration
     diffs: Dict[str, Tuple[List[str], str]] = {}
     for n in ok_names[1:]:
@@ -870,7 +882,11 @@ def _c18_job(job) -> dict:
             k = attr
             diffs.setdefault(k, ([], detail))[0].append(n)
     for attr, (ns, detail) in diffs.items():
-        res["fails"].append(("metadata-diff:%s:%s" % (attr, config_label(sorted(set(ns)), ok_names)), "%s (default vs %s)" % (detail, sorted(set(ns)))))
+        lab = config_label(sorted(set(ns)), ok_names)
+        if "Field(name=" in detail:
+            res["fails"].append(("builtin-name-shadowed:%s" % lab, "%s (default vs %s)" % (detail, sorted(set(ns)))))
+        else:
+            res["fails"].append(("metadata-diff:%s:%s" % (attr, lab), "%s (default vs %s)" % (detail, sorted(set(ns)))))
     # instances
     inst_diffs: Dict[Tuple[str, str, str], Tuple[set, str]] = {}
     for key, b in base["inst"].items():
@@ -908,7 +924,9 @@ def _c18_job(job) -> dict:
             continue  # already explained by a single-field instance
         recipe = next((json.dumps(i["recipe"]) for i in instances if detail.startswith(i["key"] + ":")), "")
         lab = config_label(sorted(ns), ok_names)
-        if what.endswith("-error"):
+        if "Field(name=" in detail:
+            key = "builtin-name-shadowed:%s" % lab
+        elif what.endswith("-error"):
             key = "%s:%s:%s" % (what, lab, exc)
         elif '"m": {}' in recipe and "pydantic" in lab and what in ("bytes-diff", "json-diff"):
             key = "%s:%s:explicit-empty-submessage" % (what, lab)
